@@ -3,7 +3,7 @@
 # Confirms the seeded change (demo fails with it, passes without), then runs the check(s) against a fresh
 # worktree of /repo HEAD with the patch applied (VERIF_REPO), and records the verdict.
 id=$1; src=$2; shift 2; checks=${@:-$id}
-name=$(basename $src)
+name=${SEED_NAME:-$(basename $src)}
 wt=/tmp/eval-$name-$$
 out=/verif/seeded/$name
 mkdir -p $out
